@@ -88,7 +88,7 @@ def check_outcome(s, shape, out):
             out.append(('2xx-failed', '%s/%s' % (s.kind, shape),
                         'command #%d got %r for a 2xx reply' % (s.idx, v)))
             return
-        if s.kind == 'P':
+        if s.kind in ('P', 'L'):
             ok = {ctlcodec.ref_text(parts)}
             if lines == ['OK']:
                 ok.add('')
@@ -114,7 +114,7 @@ def check_outcome(s, shape, out):
         if e.code != code:
             out.append(('error-code', '%s/%s' % (s.kind, shape), 'code %r want %r' % (e.code, code)))
         if e.text != want:
-            feat = 'callback-command-multiline' if (s.kind != 'P' and len(lines) > 1) else '%s/%s' % (s.kind, shape)
+            feat = 'callback-command-multiline' if (s.kind not in ('P', 'L') and len(lines) > 1) else '%s/%s' % (s.kind, shape)
             out.append(('error-text', feat,
                         'command #%d error text %r, reference %r' % (s.idx, e.text, want)))
 
@@ -319,6 +319,11 @@ def _tasks(tier, seed):
         out.append(('seq', (a,), 1, 'full'))
         for b in syms:
             out.append(('seq', (a, b), min(nmax, 3), 'full'))
+    # a command whose text has line feeds of its own ("written verbatim plus CRLF")
+    for t in ((('L', 'M1'),), (('L', 'S'), ('P', 'M1')), (('K', 'D'), ('L', 'E'))):
+        out.append(('seq', t, len(t), 'full'))
+    out.append(('seg', 'L', 'M1', 'none'))
+    out.append(('seg', 'L', 'D', 'P'))
     if nmax >= 4:
         symq = [(k, s) for k in KINDS for s in SEQ_SHAPES_Q]
         for a in symq:
